@@ -937,6 +937,82 @@ class Sem:
         b = self.find_body(target)
         return b is not None and len(b.reach) <= 24 and not b.has_loop()
 
+    def _iterlist(self, fr, st, nm, it, A, site):
+        """Iterator adaptors over a literal list of elements (`[a, b, c].into_iter()...`), by their definitions."""
+        elems = list(it[1])
+        if nm in ("copied", "cloned") and len(A) == 1:
+            return [(st, it)]
+        if nm == "rev" and len(A) == 1:
+            return [(st, mk("iterlist", tuple(reversed(elems))))]
+        if nm == "flatten" and len(A) == 1:
+            outs = [(st, [])]
+            for e in elems:
+                nxt = []
+                for (s1, acc) in outs:
+                    v = self.val(e, s1)
+                    en = v[1] if v[0] == "agg" and v[1] in VARIANTS else self.enum_of.get(v)
+                    if en not in (OPTION, RESULT):
+                        return None
+                    for (s2, var, pay) in self.split_enum(s1, v, en):
+                        nxt.append((s2, acc + [pay] if var in ("Some", "Ok") else acc))
+                outs = nxt
+                if len(outs) > 256:
+                    return None
+            return [(s1, mk("iterlist", tuple(acc))) for (s1, acc) in outs]
+        if nm == "map" and len(A) == 2:
+            outs = [(st, [])]
+            for e in elems:
+                nxt = []
+                for (s1, acc) in outs:
+                    for (s2, v) in self.call1(fr, s1, A[1], [e], site):
+                        if v is PANIC:
+                            nxt.append((s2, PANIC))
+                        elif acc is not PANIC:
+                            nxt.append((s2, acc + [v]))
+                outs = nxt
+            return [(s1, mk("iterlist", tuple(acc)) if acc is not PANIC else PANIC) for (s1, acc) in outs]
+        if nm == "fold" and len(A) == 3:
+            outs = [(st, A[1])]
+            for e in elems:
+                nxt = []
+                for (s1, acc) in outs:
+                    if acc is PANIC:
+                        nxt.append((s1, acc))
+                        continue
+                    nxt.extend(self.call1(fr, s1, A[2], [acc, e], site))
+                outs = nxt
+            return outs
+        if nm in ("any", "all") and len(A) == 2:
+            outs = []
+            work = [(st, 0)]
+            while work:
+                s1, i = work.pop()
+                if i >= len(elems):
+                    outs.append((s1, FALSE if nm == "any" else TRUE))
+                    continue
+                for (s2, v) in self.call1(fr, s1, A[1], [elems[i]], site):
+                    if v is PANIC:
+                        outs.append((s2, PANIC))
+                        continue
+                    for (s3, tv) in self.split_bool(s2, self.val(v, s2)):
+                        if tv == (nm == "any"):
+                            outs.append((s3, TRUE if nm == "any" else FALSE))
+                        else:
+                            work.append((s3, i + 1))
+            return outs
+        if nm == "for_each" and len(A) == 2:
+            outs = [(st, UNIT)]
+            for e in elems:
+                nxt = []
+                for (s1, acc) in outs:
+                    if acc is PANIC:
+                        nxt.append((s1, acc))
+                        continue
+                    nxt.extend((s2, UNIT if v is not PANIC else PANIC) for (s2, v) in self.call1(fr, s1, A[1], [e], site))
+                outs = nxt
+            return outs
+        return None
+
     def _for_each(self, fr, st, f, A, site):
         """`it.for_each(g)`: one application of g to an arbitrary element, recorded like a trip round a loop
         (kind 'loopback'); the call itself returns () and what g mutates is unknown afterwards."""
@@ -1010,6 +1086,18 @@ class Sem:
                 if idx is not None:
                     return [(st, mk("const", "isize", idx))]
             return [(st, mk("discr", x))]
+        if nm in ("into_iter", "iter") and len(A) == 1 and ("IntoIterator" in p or "slice" in p or "array" in p):
+            a = self.val(A[0], st)
+            if a[0] == "array":
+                return [(st, mk("iterlist", tuple(a[1])))]
+            if a[0] == "iterlist":
+                return [(st, a)]
+        if nm in ("flatten", "fold", "map", "any", "all", "copied", "cloned", "rev", "for_each") and "Iterator" in p and A:
+            it = self.val(A[0], st)
+            if it[0] == "iterlist":
+                r = self._iterlist(fr, st, nm, it, A, site)
+                if r is not None:
+                    return r
         if nm == "for_each" and "Iterator" in p and len(A) == 2:
             return self._for_each(fr, st, f, A, site)
         if nm == "new" and "RangeInclusive" in p and len(A) == 2:
